@@ -23,19 +23,84 @@ BIORT_LEN = {'antonini': (9, 7), 'legall': (5, 3), 'near_sym_a': (5, 7), 'near_s
 RS2 = Q2(0, Q2(1).a / 2)          # 1/sqrt(2) = sqrt(2)/2
 
 
+def is_user(name):
+    return isinstance(name, str) and name.startswith('user:')
+
+
+def user_spec(name):
+    """'user:<form>:<len>,<len>...' -> (form, [lengths]); form in flat (N,), col (N,1), row (1,N), list"""
+    _, form, lens = name.split(':')
+    return form, [int(v) for v in lens.split(',')]
+
+
+def is_tab(name):
+    return isinstance(name, str) and name.startswith('tab:')
+
+
+def tab_name(name):
+    """'tab:<form>:<table>' = the shipped table handed in as arrays of that form; plain names pass through"""
+    return name.split(':')[2] if is_tab(name) else name
+
+
 def brole(name, key):
-    return ('npz', name, key)
+    if is_user(name):
+        return ('user', key)
+    return ('npz', tab_name(name), key)
+
+
+_USER_KEYS = {2: {'f': ('h0o', 'h1o'), 'i': ('g0o', 'g1o')},
+              1: {'f': ('h0a', 'h0b', 'h1a', 'h1b'), 'i': ('g0a', 'g0b', 'g1a', 'g1b')}}
 
 
 def table_len(S, name, key):
+    if is_user(name):
+        form, lens = user_spec(name)
+        if len(lens) == 2:
+            return lens['01'.index(key[1])]
+        return lens[0]
     from .. import npz
     import os
+    name = tab_name(name)
     t = S.__dict__.setdefault('_tables', {})
     if name not in t:
         t[name] = npz.read_npz(os.path.join(S.repo, 'pytorch_wavelets/dtcwt/data', name + '.npz'))
     if key not in t[name]:
         raise AnalysisError('anchor-missing', 'key %s of table %s' % (key, name))
     return int(t[name][key].size)
+
+
+def filt_arg(S, name, direction):
+    """constructor argument for a filter set: the name itself, or (user-supplied sets, documented as 'a tuple of
+    arrays') a tuple of formal filter arrays in the requested array form"""
+    if not is_user(name) and not is_tab(name):
+        return name
+    from ..fakelibs import user_filter
+    from ..domain import Poly
+    from ..sym import Sym
+    if is_tab(name):
+        form = name.split(':')[1]
+        nkeys = 1 if tab_name(name).startswith('qshift') else 2
+    else:
+        form, lens = user_spec(name)
+        nkeys = len(lens)
+    out = []
+    for key in _USER_KEYS[nkeys][direction]:
+        if is_tab(name):
+            L = table_len(S, name, key)
+            arr = np.empty((L,), dtype=object)
+            for i in range(L):
+                arr[i] = Poly.sym(brole(name, key), i)
+            a = Sym(arr, 'np', 'float64', origin='arg')
+        else:
+            a = user_filter(key, table_len(S, name, key))
+        if form == 'col':
+            a = a.reshape(-1, 1)
+        elif form == 'row':
+            a = a.reshape(1, -1)
+        elif form == 'list':
+            a = list(a.arr)
+        out.append(a)
+    return tuple(out)
 
 
 # ------------------------------------------------------------ reference images
@@ -252,7 +317,7 @@ def w_dt_fwd(S, item):
     res = {'cmp': 1, 'diff': 0, 'findings': [], 'sample': None}
     skip = [bool((skip_mask >> j) & 1) for j in range(J)]
     incl = [bool((scale_mask >> j) & 1) for j in range(J)]
-    kw = dict(biort=biort, qshift=qshift, J=J, o_dim=o_dim, ri_dim=ri_dim)
+    kw = dict(biort=filt_arg(S, biort, 'f'), qshift=filt_arg(S, qshift, 'f'), J=J, o_dim=o_dim, ri_dim=ri_dim)
     if skip_mask:
         kw['skip_hps'] = skip
     if scale_mask:
@@ -416,7 +481,8 @@ def w_dt_inv(S, item):
     item = (biort, qshift, H, W, J, nb, c, o_dim, ri_dim, absent_mask, absent_kind, low_absent)"""
     biort, qshift, H, W, J, nb, c, o_dim, ri_dim, absent_mask, absent_kind, low_absent = item
     res = {'cmp': 1, 'diff': 0, 'findings': [], 'sample': None}
-    g = S.construct(D2, 'DTCWTInverse', biort=biort, qshift=qshift, o_dim=o_dim, ri_dim=ri_dim)
+    g = S.construct(D2, 'DTCWTInverse', biort=filt_arg(S, biort, 'i'), qshift=filt_arg(S, qshift, 'i'), o_dim=o_dim,
+                    ri_dim=ri_dim)
     (bl, yl), hs = pyramid_bases(nb, c, H, W, J, o_dim, ri_dim)
     present = [not (absent_mask >> j) & 1 for j in range(J)]
 
@@ -594,6 +660,7 @@ def npz_tap_values(S, names):
     import os
     vals = {}
     for nm in names:
+        nm = tab_name(nm)
         t = npz.read_npz(os.path.join(S.repo, 'pytorch_wavelets/dtcwt/data', nm + '.npz'))
         for k, a in t.items():
             if a.dtype.kind == 'f':
@@ -616,12 +683,16 @@ def cell_matrices(cell, vals, in_sizes):
 
 
 def w_dt_pr(S, item):
-    biort, qshift, H, W, J = item
+    biort, qshift, H, W, J = item[:5]
+    ffwd, finv = item[5:7] if len(item) > 5 else (None, None)
     res = {'cmp': 1, 'diff': 0, 'findings': [], 'sample': None}
-    f = S.construct(D2, 'DTCWTForward', biort=biort, qshift=qshift, J=J)
-    g = S.construct(D2, 'DTCWTInverse', biort=biort, qshift=qshift)
+    as_form = lambda form, nm: 'tab:%s:%s' % (form, nm) if form else nm
+    f = S.construct(D2, 'DTCWTForward', biort=filt_arg(S, as_form(ffwd, biort), 'f'),
+                    qshift=filt_arg(S, as_form(ffwd, qshift), 'f'), J=J)
+    g = S.construct(D2, 'DTCWTInverse', biort=filt_arg(S, as_form(finv, biort), 'i'),
+                    qshift=filt_arg(S, as_form(finv, qshift), 'i'))
     bx, x = base_tensor('x', 1, 1, [H, W])
-    construct = 'DTCWTInverse(DTCWTForward(x))'
+    construct = 'DTCWTInverse(DTCWTForward(x))' + ('[filters as arrays]' if (ffwd or finv) else '')
     size_class = 'H%%4=%d,W%%4=%d' % (H % 4, W % 4)
     o = S.run(S.method(f, 'forward'), x)
     if o.kind != 'ok':
@@ -646,10 +717,19 @@ def w_dt_pr(S, item):
         sizes = {bx.id: [H, W], bl.id: list(yl.shape[2:])}
         for (b, t) in hbs:
             sizes[b.id] = [s for k, s in b.dims if k == 'S']
-        Smats = cell_matrices(y.cells[0, 0], vals, sizes)
+        try:
+            Smats = cell_matrices(y.cells[0, 0], vals, sizes)
+            for (b, t) in [(bl, yl)] + [(hb[0], t) for hb, t in zip(hbs, yh)]:
+                for idx in np.ndindex(*t.cells.shape):
+                    cell_matrices(t.cells[idx], vals, sizes)
+        except KeyError as e:
+            # a tap that belongs to none of the configured tables (e.g. a filter bank remembered from another module)
+            Smats = None
+            problems.append(('foreign-filter', 'the transform pair uses filter tap %s, which is not a tap of the '
+                             'configured filter sets' % (e.args[0],)))
         total = np.zeros((er * ec, H * W))
         outs = [(bl, yl)] + [(hb[0], t) for hb, t in zip(hbs, yh)]
-        for (b, t) in outs:
+        for (b, t) in (outs if Smats is not None else []):
             for idx in np.ndindex(*t.cells.shape):
                 key = (b.id, tuple(idx))
                 if key not in Smats:
@@ -667,7 +747,7 @@ def w_dt_pr(S, item):
             for j in range(ec):
                 E[i * ec + j, min(i, H - 1) * W + min(j, W - 1)] = 1.0
         err = float(np.abs(total - E).max())
-        if err > 1e-8:
+        if err > 1e-8 and Smats is not None:
             problems.append(('not-identity', 'max |S*A - E| = %.3g (E = identity on the image, edge replication on the '
                              'extra row/column of an odd size)' % err))
     if problems:
@@ -692,7 +772,9 @@ def table_symmetries(biort, qshift, lens):
         if r[0] != 'npz':
             return sym
         name, key = r[1], r[2]
-        L = lens[(name, key)]
+        L = lens.get((name, key))
+        if L is None:
+            return sym        # a tap of a table this configuration never named: left as is, so it cannot match
         if key.endswith('o'):
             return (r, min(i, L - 1 - i))
         if key.endswith('b'):
